@@ -16,7 +16,7 @@ struct n {
 	long key;
 };
 
-#define MAXK 4096
+#define MAXK 60000
 static struct n stale = { { NULL, NULL, NULL, 9 }, 424242 };	/* what an uninitialised node's links point at */
 static struct n *bykey[2 * MAXK + 1];
 static struct iv_avl_tree tree;
@@ -30,9 +30,12 @@ static int cmp(const struct iv_avl_node *a, const struct iv_avl_node *b)
 	return 0;
 }
 
+static int lo_used = 2 * MAXK + 1, hi_used = -1;
 static struct n **slot(long k)
 {
 	if (k < -MAXK || k > MAXK) { printf("bad-op\n"); exit(3); }
+	if (k + MAXK < lo_used) lo_used = (int)(k + MAXK);
+	if (k + MAXK > hi_used) hi_used = (int)(k + MAXK);
 	return &bykey[k + MAXK];
 }
 
@@ -59,7 +62,9 @@ static void check_parents(struct iv_avl_node *an, struct iv_avl_node *parent)
 static void free_tree(void)
 {
 	int i;
-	for (i = 0; i < 2 * MAXK + 1; i++) { free(bykey[i]); bykey[i] = NULL; }
+	/* only the slots between the lowest and the highest key seen since the last reset can be in use */
+	for (i = lo_used; i <= hi_used; i++) { free(bykey[i]); bykey[i] = NULL; }
+	lo_used = 2 * MAXK + 1; hi_used = -1;
 	tree.root = NULL;
 }
 
@@ -97,7 +102,7 @@ static void verif_watchdog(int cpu_s, int wall_s)
 
 int main(void)
 {
-	static char line[1 << 16];
+	static char line[1 << 23];	/* a `load` of a 30 000-node tree is one line */
 
 	tree.compare = cmp;
 	tree.root = NULL;
